@@ -213,7 +213,7 @@ Qed.
    dropped, metadata of another batch, frame applied after the chain *)
 Example c02_check_discriminates :
   let mk upd res := {|
-    c2_guesses := None; c2_model := MValue; c2_prec := F64;
+    c2_guesses := None; c2_model := MValue; c2_prec := F64; c2_step := None;
     c2_runs := [{| r2_rows := [([1; 2; 3], [5]); ([4; 5; 6], [6]); ([7; 8; 9], [7])]%Z; r2_frame := FSlice 1 3 1;
                    r2_chain := [PCumsum]; r2_setting := BInt 2; r2_itemsize := 1; r2_obs_bs := Some 2%Z |}];
     c2_obs_updates := upd; c2_obs_processed := length (concat upd); c2_res_shape := [1; 1]; c2_obs_results := [res];
